@@ -5,13 +5,14 @@ import IsalVerif.Spec.Bits
   (`mh_sha1_murmur3_x64_128/mh_sha1_murmur3_x64_128_finalize_base.c`), one instance per SIMD family, as data (T-route,
   `tools/gen_mhfin.py`).  The functions are straight-line code; the `if (<out param> != NULL)` around the output copies
   is folded into every `out` statement.  Locals (all 64 bits wide): 0 = `total_len`, 1 = `partial_block_len`,
-  2 = offset of `murmur_tail_data` from `partial_block_buffer`.
+  2 = offset of `murmur_tail_data` from `partial_block_buffer`; 3 = the parameter `num_blocks` (uint32) of the stitched
+  `_mh_sha1_murmur3_x64_128_block_base`, which the same language covers.
 -/
 namespace IsalVerif.MhFinC
 
 inductive Z
   | total | loc (i : Nat) | lit (k : Nat)
-  | add (a b : Z) | sub (a b : Z) | and (a b : Z) | shr (a : Z) (k : Nat) | trunc (w : Nat) (a : Z)
+  | add (a b : Z) | sub (a b : Z) | and (a b : Z) | shl (a : Z) (k : Nat) | shr (a : Z) (k : Nat) | trunc (w : Nat) (a : Z)
   deriving DecidableEq, Repr, Inhabited
 
 /-- which digest: the multi-hash one or the murmur3 one (context field and output parameter of the same kind) -/
@@ -30,6 +31,10 @@ inductive B
   | shaTail (len : Z)
   /-- `if (<out> != NULL) ((uint32_t *) <out>)[dst] = ctx-><digest>[src];` -/
   | out (b : Buf) (dst src : Nat)
+  /-- stitched `_block_base`: `_mh_sha1_block_base(input_data, mh_sha1_digests, frame_buffer, n)` -/
+  | shaBlockIn (n : Z)
+  /-- stitched `_block_base`: `_murmur3_x64_128_block(input_data, n, murmur3_x64_128_digests)` -/
+  | murBlockIn (n : Z)
   | ret (code : Int)
   | unsupported (src : String)
   deriving DecidableEq, Repr, Inhabited
@@ -40,6 +45,8 @@ inductive Ev
   | murTail (off len : Nat)
   | shaTail (len : Nat)
   | out (b : Buf) (dst src : Nat)
+  | shaBlockIn (n : Nat)
+  | murBlockIn (n : Nat)
   deriving DecidableEq, Repr
 
 structure St where
@@ -54,6 +61,7 @@ def Z.eval (s : St) : Z → Nat
   | .add a b => (a.eval s + b.eval s) % 2^64
   | .sub a b => (a.eval s + (2^64 - b.eval s % 2^64)) % 2^64
   | .and a b => a.eval s &&& b.eval s
+  | .shl a k => (a.eval s * 2^k) % 2^64
   | .shr a k => a.eval s / 2^k
   | .trunc w a => a.eval s % 2^w
 
@@ -74,6 +82,8 @@ def step (o : Out) (b : B) : Out :=
     | .murTail off len => .cont { s with evs := s.evs ++ [.murTail (off.eval s) (len.eval s)] }
     | .shaTail len => .cont { s with evs := s.evs ++ [.shaTail (len.eval s)] }
     | .out b d k => .cont { s with evs := s.evs ++ [.out b d k] }
+    | .shaBlockIn n => .cont { s with evs := s.evs ++ [.shaBlockIn (n.eval s)] }
+    | .murBlockIn n => .cont { s with evs := s.evs ++ [.murBlockIn (n.eval s)] }
     | .ret code => .ret s code
     | .unsupported _ => .bad
   | o => o
@@ -97,6 +107,13 @@ def outs (b : Buf) (n : Nat) : List B := (List.range n).map fun i => .out b i i
 def canon (W : Nat) (mur : Bool) : List B :=
   [ .nullCheck, .setLoc 0 .total ] ++ (if mur then canonMur else []) ++
   [ .shaTail (.trunc 32 (.loc 0)) ] ++ outs .sha W ++ (if mur then outs .mur 4 else []) ++ [ .ret 0 ]
+
+/-- `_mh_sha1_murmur3_x64_128_block_base` as written today: the mh_sha1 block function on `num_blocks` 1024-byte blocks, then
+    the murmur block function on the same input with `num_blocks * 1024 / 16` (the product in 32 bits) 16-byte blocks -/
+def canonBlockBase : List B :=
+  [ .shaBlockIn (.loc 3),
+    .murBlockIn (.trunc 32 (.shr (.trunc 32 (.shl (.loc 3) 10)) 4)),
+    .ret 0 ]
 
 structure Src where
   file : String
